@@ -470,6 +470,7 @@ func (e *c08Env) sibling(root string) *c08Env {
 func (e *c08Env) crash(j int) {
 	e.db.Hook = nil
 	e.fs.onSnapCreate = nil
+	rsm.VerifC08AfterSyncHook = nil
 	e.mem.ResetToSyncedState()
 	e.img.crashTo(j)
 }
@@ -501,6 +502,8 @@ type c08Replica struct {
 	ctAtCommit   uint64
 	failCommit   bool
 	duringSaveFn func()
+	// where duringSaveFn runs: atFileCreate or atAfterSync
+	duringSaveAt int
 }
 
 var errC08Injected = errors.New("c08 injected log store failure")
@@ -568,6 +571,21 @@ func (r *c08Replica) data() c08Data {
 	return r.disk.mem
 }
 
+// interleaving points at which the apply worker runs inside a concurrent save
+const (
+	// the snapshot worker is about to create the snapshot file (after
+	// prepare/meta capture and after the snapshot-time sync)
+	atFileCreate = iota
+	// on-disk SMs: StateMachine.sync() has just made the state durable and
+	// released StateMachine.mu (the apply worker is locked out while the user's
+	// Sync() runs, this is the first moment it can proceed). With the order
+	// prepare -> sync -> save the snapshot point was captured before, so the
+	// durable state covers the snapshot; the crash/restart route checks it.
+	atAfterSync
+)
+
+var c08AtName = []string{"when the snapshot file is created", "right after the snapshot-time Sync() released the state machine lock"}
+
 // workerIter is one scheduling decision of the snapshot worker pool.
 func (r *c08Replica) workerIter() bool {
 	n := r.n
@@ -580,11 +598,16 @@ func (r *c08Replica) workerIter() bool {
 	}
 	if t, ok := n.ss.getSaveReq(); ok {
 		if r.duringSaveFn != nil {
-			r.env.fs.onSnapCreate = r.duringSaveFn
+			if r.duringSaveAt == atAfterSync {
+				rsm.VerifC08AfterSyncHook = r.duringSaveFn
+			} else {
+				r.env.fs.onSnapCreate = r.duringSaveFn
+			}
 			r.duringSaveFn = nil
 		}
 		r.saveErr = w.handle(job{task: t, node: n})
 		r.env.fs.onSnapCreate = nil
+		rsm.VerifC08AfterSyncHook = nil
 		return true
 	}
 	return false
@@ -883,6 +906,7 @@ type c08Case struct {
 	Cut    uint64   `json:"cut_index"`
 	Kind   int      `json:"request_kind"`
 	K      int      `json:"updates_during_save"`
+	At     int      `json:"updates_applied_at,omitempty"` // atFileCreate (0) / atAfterSync (1)
 	Cand   int      `json:"ondisk_crash_candidate"`
 	Redel  bool     `json:"redeliver_covered_entries"`
 }
@@ -899,7 +923,7 @@ type c08Fail struct{ key, desc string }
 func (c c08Case) fail(clause, format string, args ...interface{}) *c08Fail {
 	return &c08Fail{
 		key:  fmt.Sprintf("C08:twin:%s:%s:%s", clause, c08TypeName[c.Type], c08KindName[c.Kind]),
-		desc: fmt.Sprintf("[%s sm, %s snapshot at index %d, snappy=%v, %d update(s) applied during the save, on-disk crash candidate %d, redeliver=%v; log = 2 bootstrap config changes + %s] ", c08TypeName[c.Type], c08KindName[c.Kind], c.Cut, c.Snappy, c.K, c.Cand, c.Redel, c08StreamString(c.Stream)) + fmt.Sprintf(format, args...),
+		desc: fmt.Sprintf("[%s sm, %s snapshot at index %d, snappy=%v, %d update(s) applied during the save %s, on-disk crash candidate %d, redeliver=%v; log = 2 bootstrap config changes + %s] ", c08TypeName[c.Type], c08KindName[c.Kind], c.Cut, c.Snappy, c.K, c08AtName[c.At], c.Cand, c.Redel, c08StreamString(c.Stream)) + fmt.Sprintf(format, args...),
 	}
 }
 
@@ -984,15 +1008,25 @@ func c08RunCase(c c08Case, ents []pb.Entry, a *c08TwinA) (out c08Out, fail *c08F
 	if k > 0 {
 		b.step(ents[c.Cut : c.Cut+k])
 		applied := false
+		if c.At == atAfterSync && c.Type != tOnDisk {
+			panic("c08: the after-sync interleaving point only exists for on-disk state machines")
+		}
+		b.duringSaveAt = c.At
 		b.duringSaveFn = func() {
-			// the apply worker keeps going while the snapshot worker is between
-			// PrepareSnapshot/meta capture and writing the snapshot file
+			// the apply worker keeps going while the snapshot worker is inside the
+			// concurrent save: either between PrepareSnapshot/meta capture and
+			// writing the snapshot file, or (on-disk) at the moment the
+			// snapshot-time Sync() lets it in again
 			blocked, task := b.applyOnce()
 			if blocked || task.IsSnapshotTask() {
 				panic("c08: apply worker blocked during a concurrent save")
 			}
 			applied = true
-			c08Paths["path_updates_during_save"]++
+			if c.At == atAfterSync {
+				c08Paths["path_updates_after_snapshot_sync"]++
+			} else {
+				c08Paths["path_updates_during_save"]++
+			}
 		}
 		defer func() {
 			if fail == nil && !applied && c.Kind != kCommitFail {
@@ -1499,6 +1533,7 @@ type c08Plan struct {
 	snappy bool
 	kind   int
 	k      int
+	at     int
 }
 
 // c08Plans lists the (compression, request kind, updates during save)
@@ -1518,7 +1553,13 @@ func c08Plans(typ int, thorough bool, commitFail bool, rest int) []c08Plan {
 	var ps []c08Plan
 	add := func(snappy bool, kind int, maxK int) {
 		for k := 0; k <= maxK; k++ {
-			ps = append(ps, c08Plan{snappy, kind, k})
+			ps = append(ps, c08Plan{snappy, kind, k, atFileCreate})
+			if typ == tOnDisk && k > 0 && (kind == kPeriodic || kind == kUser) {
+				// the same updates applied at the other interleaving point of an
+				// on-disk save; crossed with the kinds whose oracle is the
+				// crash/restart route on the replica that took the snapshot
+				ps = append(ps, c08Plan{snappy, kind, k, atAfterSync})
+			}
 		}
 	}
 	add(false, kPeriodic, kmax(2))
@@ -1569,7 +1610,7 @@ func (x *c08Runner) stream(alpha string, stream []c08Sym, thorough bool) {
 					continue
 				}
 				c := base
-				c.Snappy, c.Cut, c.Kind, c.K = p.snappy, cut, p.kind, p.k
+				c.Snappy, c.Cut, c.Kind, c.K, c.At = p.snappy, cut, p.kind, p.k, p.at
 				c.Redel = p.kind == kUser || (p.kind == kExported && cut%2 == 1)
 				if typ != tOnDisk {
 					x.one(c, ents, a)
@@ -1611,7 +1652,7 @@ func TestVerifC08Twin(t *testing.T) {
 	run := verifkit.Env()
 	res := verifkit.NewResult()
 	defer run.Finish(res)
-	res.Rule = "every committed-entry stream of length L over the alphabet {reg(c1) reg(c2) prop(c1,s1) prop(c1,s2) prop(c2,s1) unreg(c1) noop-session update, cc add(3)/remove(2)/addNonVoting(4), empty entry with term+1} (on-disk SMs: {noop(x) noop(y), the 3 config changes, empty}) after 2 bootstrap config changes, x SM type {regular, concurrent, on-disk} x snapshot compression {none, snappy} x every cut index 1..L+2 x request kind {periodic, user requested (overhead 0), exported (+ user requested with compaction index in thorough), commit failure} x 0..2 updates applied between meta capture and file write (concurrent/on-disk) x every legal post-crash durable state of the on-disk SM; evaluation = one (stream, type, compression, cut, kind, k, crash state) tuple run through twin B + crash + restart and compared with the full-replay twin A; distinct_nontrivial = tuples (all distinct by construction, disjoint across shards) whose snapshot carries non-initial user data, sessions or membership"
+	res.Rule = "every committed-entry stream of length L over the alphabet {reg(c1) reg(c2) prop(c1,s1) prop(c1,s2) prop(c2,s1) unreg(c1) noop-session update, cc add(3)/remove(2)/addNonVoting(4), empty entry with term+1} (on-disk SMs: {noop(x) noop(y), the 3 config changes, empty}) after 2 bootstrap config changes, x SM type {regular, concurrent, on-disk} x snapshot compression {none, snappy} x every cut index 1..L+2 x request kind {periodic, user requested (overhead 0), exported (+ user requested with compaction index in thorough), commit failure} x 0..2 updates applied between meta capture and file write (concurrent/on-disk; on-disk also: applied right after the snapshot-time Sync() released the state machine lock) x every legal post-crash durable state of the on-disk SM; evaluation = one (stream, type, compression, cut, kind, k, crash state) tuple run through twin B + crash + restart and compared with the full-replay twin A; distinct_nontrivial = tuples (all distinct by construction, disjoint across shards) whose snapshot carries non-initial user data, sessions or membership"
 	res.Assumptions = []string{
 		"raft core replaced by exhaustive enumeration of committed entry streams fed as pb.Update values in engine.processSteps order; rsm.INode callbacks go to a recording proxy",
 		"in-memory ILogDB (verifkit/memlogdb) below the real LogReader/snapshotter; it is always durable",
@@ -1620,6 +1661,7 @@ func TestVerifC08Twin(t *testing.T) {
 		"client sessions are not part of the on-disk alphabet: IOnDiskStateMachine only supports the NO-OP session (nodehost.go)",
 		"an exported snapshot is installed on another machine by harness code that mirrors tools.ImportSnapshot but keeps the membership unchanged",
 		"external snapshot files (ISnapshotFileCollection) are not exercised: rsm.Files.PrepareFiles uses os.Link and cannot run on MemFS",
+		"internal/rsm/statemachine.go is a generated copy of the tree's file whose only change is a one-shot interleaving hook called after StateMachine.sync() unlocked s.mu (gen_sm.py)",
 	}
 	if os.Getenv("C08_FAST") != "" {
 		res.MaxViolations = 1 // mutant runs: stop at the first violation
